@@ -790,11 +790,44 @@ pub fn gen_project(rng: &mut Rng) -> Src {
     Src::Project { main, files: vec![(format!("{m}.mmm"), modsrc)], lib: None, at: None }
 }
 
+/// A sketch around an array of a user-defined sum type and the array primitives that are
+/// specialised by element width (`split_head`, `split_tail`, `prepend`, `append`). `width` is the
+/// number of floats in the payload of the first constructor; two sketches made from the same
+/// `tag` differ ONLY in that payload (same type name, same constructor names): the edit
+/// "this event now carries two values".
+pub fn gen_evprog(tag: u32, width: u32, k: f64) -> String {
+    let payload = |a: f64| -> (String, String, String) {
+        match width {
+            1 => ("float".into(), format!("{a:?}"), "x".into()),
+            2 => ("(float,float)".into(), format!("({a:?}, {:?})", a + 1.0), "x.0 + x.1".into()),
+            _ => ("(float,float,float)".into(), format!("({a:?}, {:?}, {:?})", a + 1.0, a + 2.0), "x.0 + x.1 + x.2".into()),
+        }
+    };
+    let (ty, _, sum) = payload(0.0);
+    let (_, l1, _) = payload(1.0);
+    let (_, l3, _) = payload(3.0);
+    let (_, l5, _) = payload(k);
+    format!(
+        "type Ev{tag} = Note{tag}({ty}) | Rest{tag}\nfn val{tag}(e: Ev{tag}) -> float {{\n  match e {{\n    Note{tag}(x) => {sum},\n    Rest{tag} => 100.0\n  }}\n}}\nfn dsp(){{\n  let evs = [Note{tag}({l1}), Rest{tag}, Note{tag}({l3})]\n  let (h, rest) = split_head(evs)\n  let (rest2, t) = split_tail(evs)\n  let more = prepend(Note{tag}({l5}), rest)\n  let (h2, rest3) = split_head(more)\n  val{tag}(h) + val{tag}(t) * 10.0 + val{tag}(h2) * 100.0\n}}\n"
+    )
+}
+
 pub fn gen_c15(seed: u64, corpus: &[String]) -> DetRun {
     let root = Rng::new(seed);
     let mut r_cfg = root.sub("swarm");
     let mut r = root.sub("workload");
-    let target = match r_cfg.below(15) {
+    let mut ev_sibling: Option<(u32, u32, f64)> = None;
+    let target = match r_cfg.below(16) {
+        15 => {
+            let mut r_ev = root.sub("event-sketch");
+            let (tag, w, k) = (r_ev.below(4) as u32, r_ev.range(1, 3) as u32, r_ev.range(1, 9) as f64);
+            let mut w2 = r_ev.range(1, 3) as u32;
+            if w2 == w {
+                w2 = w % 3 + 1;
+            }
+            ev_sibling = Some((tag, w2, k));
+            Src::Text(gen_evprog(tag, w, k))
+        }
         14 => Src::Text(gen_bigprog(&mut r)),
         12..=13 => gen_project(&mut r),
         10..=11 => Src::Text(gen_nameprog(&mut r)),
@@ -852,6 +885,11 @@ pub fn gen_c15(seed: u64, corpus: &[String]) -> DetRun {
     for _ in 0..hist_len {
         let src = match r.below(10) {
             _ if matches!(target, Src::Project { .. }) && r.chance(2, 3) => gen_project(&mut r),
+            // the earlier version of an event sketch: same names, another payload width
+            _ if ev_sibling.is_some() && r.chance(2, 3) => {
+                let (tag, w2, k) = ev_sibling.unwrap();
+                Src::Text(gen_evprog(tag, w2, k))
+            }
             0..=2 => Src::Text(permuting_history(&mut r, &tsrc)),
             3 => Src::Text(gen_idprog(&mut r)),
             4 => Src::Text(gen_nameprog(&mut r)),
